@@ -33,6 +33,8 @@ def np_ref(fn, x, axis, keepdims, extra):
     with np.errstate(all="ignore"), warnings.catch_warnings():
         warnings.simplefilter("ignore")
         if fn in ("sum", "prod"):
+            if extra.get("dtype"):
+                return getattr(np, fn)(x, axis=axis, keepdims=keepdims, dtype=extra["dtype"])
             return getattr(np, fn)(x, axis=axis, keepdims=keepdims)
         if fn in ("min", "max"):
             return getattr(np, fn)(x, axis=axis, keepdims=keepdims)
@@ -43,7 +45,8 @@ def np_ref(fn, x, axis, keepdims, extra):
         if fn in ("all", "any"):
             return getattr(np, fn)(x, axis=axis, keepdims=keepdims)
         if fn == "cumulative_sum":
-            return np.cumulative_sum(x, axis=axis, include_initial=extra.get("include_initial", False))
+            return np.cumulative_sum(x, axis=axis, include_initial=extra.get("include_initial", False),
+                                     **({"dtype": extra["dtype"]} if extra.get("dtype") else {}))
         if fn in ("argmax", "argmin"):
             return getattr(np, fn)(x, axis=axis, keepdims=keepdims)
     raise KeyError(fn)
@@ -61,6 +64,15 @@ def worker(job):
         x = (rng.integers(-6, 7, size=size) * 0.5).astype(dtype).reshape(shape)
     else:
         x = rng.integers(0 if dtype.startswith("u") else -3, 5, size=size).astype(dtype).reshape(shape)
+    acc = extra.get("dtype")
+    if acc and size:
+        # data on which casting each element first differs from casting the combined result
+        if dtype in impl.FLOATS and acc.startswith("int"):
+            x = (rng.integers(0, 4, size=size) + 0.5).astype(dtype).reshape(shape)
+        elif dtype == "float32" and acc == "float64" and fn != "prod":
+            x = rng.choice(np.array([16777216.0, 1.0, 1.0], dtype=dtype), size=size).reshape(shape)
+        elif dtype in ("int64", "int32", "uint32") and acc == "float32" and fn != "prod":
+            x = rng.choice(np.array([16777217, 1, 3], dtype=dtype), size=size).reshape(shape)
     try:
         ref = np_ref(fn, x, axis, keepdims, extra)
     except Exception as e:
@@ -74,6 +86,8 @@ def worker(job):
         if fn != "cumulative_sum":
             kw["keepdims"] = keepdims
         kw.update(extra)
+        if kw.get("dtype"):
+            kw["dtype"] = impl.dt(kw["dtype"])
         return getattr(ndx, fn)(a, **kw)
     res = sweep.run_case(call, [x], [dtype])
     out = {"ref_shape": list(ref.shape), "ref_dtype": str(ref.dtype), "fail": []}
@@ -86,7 +100,9 @@ def worker(job):
             continue
         # dtype: accumulator rule
         want_dt = str(ref.dtype)
-        if fn in ("sum", "prod", "cumulative_sum") and dtype.startswith("uint"):
+        if extra.get("dtype"):
+            pass                 # an explicit dtype= is the result dtype, whatever the input
+        elif fn in ("sum", "prod", "cumulative_sum") and dtype.startswith("uint"):
             want_dt = None       # documented unsigned deviation: checked against the library's own rule below
         if fn in ("mean", "var", "std") and dtype not in impl.FLOATS:
             want_dt = None       # outside the standard's domain
@@ -143,6 +159,12 @@ def run(ctx: common.Ctx):
                 extra = {"correction": rng.choice([0, 1, 0.5])}
             if fn == "cumulative_sum":
                 extra = {"include_initial": rng.random() < 0.5}
+            if fn in ("sum", "prod", "cumulative_sum") and rng.random() < 0.45:
+                # explicit accumulator: the elements are cast *before* they are combined (halves into integers,
+                # integers into a narrower type, float32 into float64)
+                d0 = dts[k % len(dts)]
+                extra = {**extra, "dtype": rng.choice(["int64", "int32", "int64", "int16", "float64", "float32"] if d0 in impl.FLOATS
+                                                      else ["float32", "float64", "int64", "int16"])}
             jobs.append((fn, "function", dts[k % len(dts)], shape, axis, keepdims, extra, ctx.seed * 7919 + k))
     for fn in METHODS:
         for k in range(25 if quick else 300):
@@ -180,7 +202,8 @@ def run(ctx: common.Ctx):
         axcls = "none" if axis is None else ("tuple" if isinstance(axis, tuple) else ("neg" if axis < 0 else "pos"))
         empty = "empty" if 0 in shape else "nonempty"
         for mode, kind, detail in r["fail"]:
-            key = f"{fn}{'-method' if form == 'method' else ''}/{dtype}/{axcls}-{'keepdims' if keepdims else 'nokeepdims'}-{empty}/{kind}"
+            dkey = f"{dtype}->{extra['dtype']}" if extra.get("dtype") else dtype
+            key = f"{fn}{'-method' if form == 'method' else ''}/{dkey}/{axcls}-{'keepdims' if keepdims else 'nokeepdims'}-{empty}/{kind}"
             ctx.violation(key, f"{fn}{' method' if form == 'method' else ''}({dtype}{list(shape)}, axis={axis}, keepdims={keepdims}, {extra}) {mode}: {kind}: {detail}",
                           {"function": fn, "form": form, "dtype": dtype, "shape": shape, "axis": axis, "keepdims": keepdims,
                            "extra": extra, "mode": mode, "kind": kind, "detail": detail})
